@@ -135,8 +135,12 @@ func (v *verifVFS) Create(name string, opt ...FSOption) (File, error) {
 	verifBefore("create", name, nil)
 	return v.wrap(v.VFS.Create(name, opt...))
 }
-func (v *verifVFS) CreateV1(name string, opt ...FSOption) (File, error) { return v.Create(name, opt...) }
-func (v *verifVFS) CreateV2(name string, opt ...FSOption) (File, error) { return v.Create(name, opt...) }
+func (v *verifVFS) CreateV1(name string, opt ...FSOption) (File, error) {
+	return v.Create(name, opt...)
+}
+func (v *verifVFS) CreateV2(name string, opt ...FSOption) (File, error) {
+	return v.Create(name, opt...)
+}
 func (v *verifVFS) Remove(name string, opt ...FSOption) error {
 	verifMu.Lock()
 	defer verifMu.Unlock()
